@@ -25,7 +25,7 @@ def run(tier, seed):
     absorb(ck, "C04", results, CFG, "Model.Put")
     try:
         from . import parworlds
-        parworlds.add_concurrent(ck, tier, seed)
+        parworlds.add_concurrent(ck, tier, seed, oracles=("C01", "C04", "no-traceback", "exit", "confinement"))
     except ImportError:
         ck.notes.append("concurrent part not built yet")
     return ck.finish(info, LEVEL_NOTE, RULE)
@@ -33,5 +33,5 @@ def run(tier, seed):
 
 def replay(path):
     from . import parworlds
-    rc = parworlds.replay_concurrent("C04", path)
+    rc = parworlds.replay_concurrent("C04", path, oracles=("C01", "C04", "no-traceback", "exit", "confinement"))
     return rc if rc is not None else replay_family("C04", path, CFG)
